@@ -29,6 +29,7 @@ type World struct {
 	tier     string
 	maxCex   int
 	noMerge  bool
+	trace    bool
 }
 
 // packages whose functions are executed from SSA when no model is registered
@@ -236,6 +237,8 @@ func (w *World) explore(fn *ssa.Function, workers int, maxPaths int) *HarnessRep
 			solStats["unknown"] += float64(st["unknown"].(int))
 			solStats["errors"] += float64(st["errors"].(int))
 			solStats["solver_s"] += st["solver_s"].(float64)
+			solStats["fresh_retries"] += float64(st["retries"].(int))
+			solStats["fresh_retry_wins"] += float64(st["retry_wins"].(int))
 			mu.Unlock()
 		}()
 	}
@@ -354,13 +357,14 @@ func main() {
 			fmt.Sscan(s, &n)
 			pre = append(pre, n)
 		}
+		w.trace = true
 		sol, _ := NewSolver(*solver, *timeout)
 		if *smtlog != "" {
 			f, _ := os.Create(*smtlog)
 			sol.log = f
 		}
 		r := w.runPath(sol, harnesses[0], pre)
-		b, _ := json.MarshalIndent(map[string]any{"status": r.Status, "why": r.Why, "decisions": r.Decisions, "asserts": r.Asserts, "reached": r.Reached, "alts": r.NewAlts, "recovered": r.Recovered}, "", " ")
+		b, _ := json.MarshalIndent(map[string]any{"status": r.Status, "why": r.Why, "decisions": r.Decisions, "asserts": r.Asserts, "reached": r.Reached, "alts": r.NewAlts, "recovered": r.Recovered, "trace": r.Trace}, "", " ")
 		fmt.Println(string(b))
 		return
 	}
